@@ -118,7 +118,8 @@ Addr1 == {Sender, Receiver, MyParty, Pol}
 Signer1 == {Sender, MyParty, Hex(KeyHash)}
 RefTo(t, ix) == [k |-> "utxo_ref", txid |-> [i \in 1..32 |-> t], index |-> ix]
 RefNames == <<"rfa", "rfb", "rfc">>
-Ref1 == {[k |-> "utxo_ref", txid |-> [i \in 1..32 |-> 7], index |-> 2]}
+RefWide(t, ix) == [k |-> "utxo_ref_wide", txid |-> [i \in 1..32 |-> t], index |-> ix]    \* output index 2^32 + ix
+Ref1 == {[k |-> "utxo_ref", txid |-> [i \in 1..32 |-> 7], index |-> 2], RefWide(7, 2), RefWide(7, 0)}
 
 \* ---- chain-specific blocks --------------------------------------------------------
 PlutusScriptBytes == <<81, 1, 1, 0, 35, 37, 152, 0, 165, 24, 164, 209, 54, 86, 64, 4, 174, 105>>     \* 0x5101010023259800a518a4d136564004ae69
@@ -174,7 +175,7 @@ SlotUniverse(s) ==
       [] s = "min_amount" -> {AdaE(PN), Op("add", AdaE(PN), FeesE), Op("add", AdaE(PN), TokE(Lit(1))), TokE(Lit(2))}
       \* two (three) reference blocks: outputs of one transaction, of two transactions, the same output twice
       [] s = "two_references" -> {<<RefTo(7, 2), RefTo(7, 3)>>, <<RefTo(7, 3), RefTo(7, 2)>>, <<RefTo(7, 2), RefTo(8, 2)>>, <<RefTo(7, 2), RefTo(7, 2)>>,
-                                 <<RefTo(7, 0), RefTo(7, 1), RefTo(8, 0)>>, <<RefTo(9, 5), RefTo(7, 5), RefTo(9, 4)>>}
+                                 <<RefTo(7, 0), RefTo(7, 1), RefTo(8, 0)>>, <<RefWide(7, 1), RefTo(7, 1)>>, <<RefTo(9, 5), RefTo(7, 5), RefTo(9, 4)>>}
       \* ---- chain-specific blocks: the slot value is the block (or, for a donation, its coin expression)
       \* (the analyzer type-checks the coin and infers no type for env names, locals and built-in calls: left out, as for metadata labels)
       [] s = "donation" -> {Lit(7), PN, PM} \cup {Op(o, a, b) : o \in {"add", "sub"}, a \in {PN, Lit(7)}, b \in {PM, Lit(2)}}
